@@ -14,24 +14,40 @@ class DiscountFactor(Lemma):
     """df of the Libor / forward-market models for m tenors T_0 < ... (initial rates >= 0): df(0) = 1, df > 0, df is
     non-increasing on every pair of times, and continuous at every tenor (the value at T_k equals the limit from the right)."""
     prop = "C16"
-    cases = tuple((cls, k) for cls in ("levylibormodel:LevyLiborModel", "levyforwardmodel:LevyForwardModel") for k in ("monotone", "tenor-continuity", "at-zero"))
+    cases = tuple((cls, k) for cls in ("levylibormodel:LevyLiborModel", "levyforwardmodel:LevyForwardModel") for k in ("monotone", "tenor-continuity", "at-zero")) \
+        + tuple((cls, k, "rates reassigned") for cls in ("levylibormodel:LevyLiborModel", "levyforwardmodel:LevyForwardModel") for k in ("monotone", "tenor-continuity"))
 
     def __init__(self):
         self.name = "property:rate-model-df"
 
-    def _model(self, vc, cls):
+    def _model(self, vc, cls, reassigned=False):
+        """the model built by its REAL constructor (tenor list, driver abstract); reassigned: built with other initial rates,
+        x0 assigned afterwards (the attribute the simulation and the discount factor read)"""
         m = N_TENORS
         T = vc.reals("tenor", m)
-        x0 = vc.reals("rate", m)
+        x0 = vc.reals("rate", m - 1)
         vc.assume(And(T[0] > 0, *[a < b for a, b in zip(T, T[1:])], *[x >= 0 for x in x0]))
-        o = vc.obj("rpylib.model.levydrivensde." + cls, tenors=np.array(T, dtype=object), x0=np.array(x0, dtype=object),
-                   deltas=np.array([b - a for a, b in zip(T, T[1:])], dtype=object))       # as set by the constructors: np.diff(tenors)
+        it = vc.interp
+        it.hooks["rpylib.model.levymodel.levymodel:LevyModel.dimension"] = lambda it_, f, b: 1
+        it.hooks["rpylib.model.levymodel.levymodel:LevyModel.finite_first_moment"] = lambda it_, f, b: True
+        it.hooks["rpylib.model.model:Model.__init__"] = lambda it_, f, b: None
+        driver = vc.obj("rpylib.model.levymodel.levymodel:LevyModel")
+        sg = np.array(vc.reals("sigma", m - 1), dtype=object).reshape(m - 1, 1)
+        first = x0
+        if reassigned:
+            first = vc.reals("rate_at_construction", m - 1)
+            vc.assume(And(*[x >= 0 for x in first]))
+        kw = {"libor_rates" if "Libor" in cls else "ois_rates": np.array(first, dtype=object)}
+        o = vc.new("rpylib.model.levydrivensde." + cls, tenors=list(T), sigma=sg, driver=driver, **kw)
+        if reassigned:
+            it.setattr(o, "x0", np.array(x0, dtype=object))
         return o, T, x0
 
     def prove(self, vc, case):
-        cls, kind = case
-        nm = f"{self.name}[{cls.split(':')[1]}]"
-        o, T, x0 = self._model(vc, cls)
+        cls, kind = case[:2]
+        re_ = len(case) > 2
+        nm = f"{self.name}[{cls.split(':')[1]}{',initial rates reassigned after construction' if re_ else ''}]"
+        o, T, x0 = self._model(vc, cls, reassigned=re_)
         if kind == "at-zero":
             vc.check(nm + "::df(0)=1", vc.method(o, "df", 0.0) == 1)
             t = vc.real("t")
@@ -60,15 +76,18 @@ class DiscountFactor(Lemma):
             vc.check(nm + "::continuous-at-every-tenor", And(after <= at, at - after <= eps * rmax * at))
 
     def replay(self, model, clause, case):
-        cls, kind = case
+        cls, kind = case[:2]
         import importlib
         from contracts import battery
         mod, cn = cls.split(":")
         M = getattr(importlib.import_module("rpylib.model.levydrivensde." + mod), cn)
-        o = M.__new__(M)
-        o.tenors = np.array([1.0, 1.4, 3.0, 4.0])
-        o.deltas = np.diff(o.tenors)
-        o.x0 = np.array([0.02, 0.03, 0.04, 0.035])
+        tenors = [1.0, 1.4, 3.0, 4.0]
+        rates = np.array([0.02, 0.03, 0.04])
+        first = np.array([0.05, 0.01, 0.02]) if len(case) > 2 else rates
+        kw = {"libor_rates" if "Libor" in cn else "ois_rates": first.copy()}
+        o = M(tenors=list(tenors), sigma=np.array([[0.2], [0.1], [0.15]]), driver=battery.models(("hem",))["hem"], **kw)
+        if len(case) > 2:
+            o.x0 = rates.copy()
         ts = np.linspace(0.0, 4.0, 4001)
         d = np.array([o.df(float(t)) for t in ts])
         jumps = np.abs(np.diff(d))
